@@ -207,7 +207,15 @@ def run(a, res):
         # racing leaders (SMP only can have them): further fetches on behalf of requests that were sent before / together
         # with the one that opened W, i.e. that did not arrive "while a fetch was in progress" in any observable sense
         sent_at = {rec["req_id"]: rec["t_before"] for rec in out if rec and "t_before" in rec}
-        racing = [q for q in oreqs[1:] if sent_at.get(q.req_id, w_lo + 1e9) <= w_lo + GUARD] if kind.startswith("smp") else []
+        # (client send time against the origin's receive time, or -- more exact on a loaded machine -- squid's own start stamps
+        # of the two requests against each other)
+        st_first = started.get(first.req_id)
+        def raced(q):
+            if sent_at.get(q.req_id, w_lo + 1e9) <= w_lo + GUARD:
+                return True
+            st_q = started.get(q.req_id)
+            return bool(st_q and st_first and st_q[0] <= st_first[0] + GUARD)
+        racing = [q for q in oreqs[1:] if raced(q)] if kind.startswith("smp") else []
         if racing:
             res.count(f"bursts_with_racing_leaders:{kind}")
             res.grey("racing-leaders-themselves")
